@@ -1463,12 +1463,17 @@ func (e *compiledFunctionLiteral) compile() (prg *Program, name unistring.String
 					firstForwardRef = i
 				}
 				if firstForwardRef == -1 {
+					// the binding is the argument slot itself: a supplied argument needs no initialisation
 					s.bindings[i].emitGetAt(markGet)
+					s.bindings[i].emitInitP()
+					e.c.p.code[mark] = jdefP(len(e.c.p.code) - mark)
 				} else {
+					// the binding lives in the stash: a supplied argument is kept on the stack (jdef)
+					// and initialises the binding just like the default value does
 					e.c.p.code[markGet] = loadStackLex(-i - 1)
+					e.c.p.code[mark] = jdef(len(e.c.p.code) - mark)
+					s.bindings[i].emitInitP()
 				}
-				s.bindings[i].emitInitP()
-				e.c.p.code[mark] = jdefP(len(e.c.p.code) - mark)
 			} else {
 				if firstForwardRef == -1 && s.bindings[i].useCount() > 0 {
 					firstForwardRef = i
